@@ -312,6 +312,118 @@ macro_rules! by_n {
     };
 }
 
+macro_rules! by_big_n {
+    ($n:expr, $f:ident, $($a:expr),*) => {
+        match $n {
+            31 => $f::<31>($($a),*),
+            32 => $f::<32>($($a),*),
+            33 => $f::<33>($($a),*),
+            40 => $f::<40>($($a),*),
+            64 => $f::<64>($($a),*),
+            65 => $f::<65>($($a),*),
+            255 => $f::<255>($($a),*),
+            256 => $f::<256>($($a),*),
+            257 => $f::<257>($($a),*),
+            65535 => $f::<65535>($($a),*),
+            65536 => $f::<65536>($($a),*),
+            65537 => $f::<65537>($($a),*),
+            65540 => $f::<65540>($($a),*),
+            _ => unreachable!(),
+        }
+    };
+}
+
+fn big_builder<const N: usize>(k: usize) -> String {
+    use konst::array::ArrayBuilder;
+    let r = catch_unwind(AssertUnwindSafe(|| {
+        let mut b = ArrayBuilder::<u8, N>::new();
+        let mut panics = 0usize;
+        for i in 1..=k {
+            let mut bb = Some(b);
+            let rr = catch_unwind(AssertUnwindSafe(|| {
+                let mut x = bb.take().unwrap();
+                x.push((i % 256) as u8);
+                x
+            }));
+            match rr {
+                Ok(x) => b = x,
+                Err(_) => {
+                    panics += 1;
+                    // the builder was moved into the closure and unwound: start the tail again
+                    // (only happens when the push panicked; u8 has no destructor)
+                    b = ArrayBuilder::<u8, N>::new();
+                    return format!("pushpanics={};len=?;full=?;build=?", panics);
+                }
+            }
+        }
+        let len = b.len();
+        let full = b.is_full();
+        let build = match catch_unwind(AssertUnwindSafe(move || b.build())) {
+            Ok(a) => format!("B{}:{}", a.len(), a.iter().fold(0u64, |s, x| (s + *x as u64) % 1000003)),
+            Err(_) => "PANIC".to_string(),
+        };
+        format!("pushpanics={};len={};full={};build={}", panics, len, show_bool(full), build)
+    }));
+    r.unwrap_or_else(|_| "PANIC-OUTSIDE".into())
+}
+
+fn stress(cfg: &Cfg, out: &mut Out) {
+    for n in [31usize, 32, 33, 40, 64, 65] {
+        let mut scripts: Vec<Vec<u8>> = vec![vec![0u8; n]];
+        let mut ps: Vec<usize> = vec![0, 1, 30, 31, 32, 33, n / 2, n - 1];
+        ps.retain(|p| *p < n);
+        ps.sort_unstable();
+        ps.dedup();
+        for &p in &ps {
+            for code in [1u8, 2, 3, 4] {
+                let mut s = vec![0u8; p];
+                s.push(code);
+                if code == 2 {
+                    s.extend(vec![0u8; n - p]);
+                }
+                scripts.push(s);
+            }
+        }
+        if !cfg.thorough {
+            scripts.retain(|s| s.len() % 2 == 1 || s.len() >= n);
+        }
+        for s in &scripts {
+            let tag = script_tag(s);
+            let sc = show_script(s);
+            let (i, d) = by_big_n!(n, map_num, s);
+            out.line("c11.map", &format!("{} {} 0", n, sc), &i, &d, &tag);
+            let (i, d) = by_big_n!(n, from_fn_num, s);
+            out.line("c11.from_fn", &format!("{} {} 0", n, sc), &i, &d, &tag);
+            let i = by_big_n!(n, map_led, s);
+            out.line("c11.map", &format!("{} {} 1", n, sc), &i, "-", &tag);
+            let i = by_big_n!(n, from_fn_led, s);
+            out.line("c11.from_fn", &format!("{} {} 1", n, sc), &i, "-", &tag);
+            if s.len() == n || s.contains(&4) {
+                let (i, d) = by_big_n!(n, map_val, s);
+                out.line("c11.map_", &format!("{} {}", n, sc), &i, &d, &tag);
+                let (i, d) = by_big_n!(n, from_fn_val, s);
+                out.line("c11.from_fn_", &format!("{} {}", n, sc), &i, &d, &tag);
+            }
+        }
+    }
+    for n in [255usize, 256, 257, 65535, 65536, 65537, 65540] {
+        // (the model's slot update is linear in the index: only short push sequences for the big capacities)
+        let mut ks: Vec<usize> = vec![0, 1, 4, n % 256, n % 65536, 300];
+        if n <= 257 {
+            ks.extend([n - 1, n, n + 1]);
+        }
+        ks.sort_unstable();
+        ks.dedup();
+        for k in ks {
+            if k > n + 1 || (n > 257 && k > 400) {
+                continue;
+            }
+            let imp = std::thread::Builder::new().stack_size(64 << 20).spawn(move || by_big_n!(n, big_builder, k)).unwrap().join().unwrap_or_else(|_| "PANIC-OUTSIDE".into());
+            out.line("c11.bigbuilder", &format!("{} {}", n, k), &imp, "-", if k == n { "full" } else if k > n { "over" } else { "under" });
+        }
+    }
+}
+
 pub fn run(cfg: &Cfg, out: &mut Out) {
     let maxn = if cfg.thorough { 5 } else { 4 };
     let extra = if cfg.thorough { 3 } else { 2 };
@@ -338,6 +450,9 @@ pub fn run(cfg: &Cfg, out: &mut Out) {
             out.line("c11.from_fn_", &format!("{} {}", n, sc), &i, &d, &tag);
         }
     }
+    // stress: map! / from_fn! on arrays around the 32/64 block sizes, one special outcome at a
+    // block edge; ArrayBuilder with capacities around 2^8 and 2^16 (a counter in a narrower type)
+    stress(cfg, out);
     // ArrayBuilder histories: push / build / clone / drop with len, is_full, as_slice after
     // every step, incl. over- and under-filling
     histories(cfg, out, "c11.builder", &[1]);
